@@ -229,6 +229,10 @@ def order(ctx, o, eff, q):
             key = "multi-receiver loop applying a rejecting setter" if fos else key
         elif ctor_like(f):
             key = "constructor applies several relation setters in sequence"
+        elif _only_next_round(cfg, w[0], rn):
+            # the raising event belongs to the NEXT receiver/element of the same loop (e.g. `x = t.rel + other; t.rel = x`): the same
+            # sequence-of-atomic-setter-calls situation as `t.rel += other`
+            key = "multi-receiver loop applying a rejecting setter"
         if key in reported:
             continue
         reported.add(key)
@@ -237,6 +241,24 @@ def order(ctx, o, eff, q):
                                 f"earlier change in place")
     if not o.refuted:
         o.site(f, f.node, f"{len(W)} write event(s), {len(R)} raising event(s): all raising events precede the first write or are exempt")
+
+
+def _only_next_round(cfg, wn, rn) -> bool:
+    """wn and rn sit in the same for loop and rn is reachable from wn only through the loop header (i.e. in a later round)"""
+    common = [fo for fo in cfg.enclosing_fors(wn) if any(fo is x for x in cfg.enclosing_fors(rn))]
+    if not common:
+        return False
+    hdr = cfg.node_of(common[-1])
+    seen, todo = set(), list(wn.succ)
+    while todo:
+        n = todo.pop()
+        if n.id in seen or n is hdr:
+            continue
+        seen.add(n.id)
+        if n is rn:
+            return False
+        todo.extend(n.succ)
+    return True
 
 
 def _in_comprehension(f, node) -> bool:
